@@ -295,7 +295,9 @@ class RandomFile:
             self.emit("#define " + nm)
             new = ("empty",)
         else:
-            g = self.gen()
+            # no `defined`/__has_include (undefined behaviour when produced by expansion) and no references to other
+            # macros (their later redefinition would change this macro's value) in a replacement list
+            g = E.ExprGen(self.rng, mode="pp", refs=[], ids=UNDEF_IDS, lit_forms=self.lit_forms, comma=False)
             node = g.expr(rng.choice([1, 1, 2, 3]))
             v, t = E.evaluate(node)
             wrap = rng.random() < 0.6
@@ -394,7 +396,8 @@ class RandomFile:
             evaluated = active and not taken
             ln = self.directive(word, rest, evaluated)
             rec.update(line=ln, word=word, evaluated=evaluated, value=tv, text=self.lines[ln - 1],
-                       state={k: ("" if v[0] == "empty" else v[5]) for k, v in self.state.items()})
+                       state={k: ("" if v[0] == "empty" else v[5]) for k, v in self.state.items()},
+                       bodies={k: v[1] for k, v in self.state.items() if v[0] == "expr"})
             self.conds.append(rec)
             self.features.add("dir:" + word + (":evaluated" if evaluated else ":unevaluated"))
             this = evaluated and tv
